@@ -131,7 +131,10 @@ class C02(C01):
     coq_targets = ["Properties/C02.vo", "Corr/C01.vo"]
     props_file = "Properties/C02.v"
     bits = {64: "unused_variable flags a local/parameter/loop variable that an (unaffected) expression-position occurrence uses",
-            128: "a local/parameter/loop variable never mentioned again is not flagged"}
+            128: "a local/parameter/loop variable never mentioned again is not flagged",
+            256: "unused_variable's verdict on a declaration differs from the documented rule (Lints/Unused.v: a reading reference is a use, "
+                 "except a bare argument the library declares `observes: write` of a call statement to an unshadowed library function, for a local "
+                 "initialised with a table constructor; static-name writes into such a table are not uses)"}
     classes = {"K1": 1 << 10, "K2": 2 << 10, "K3": 4 << 10, "K4": 8 << 10, "KA": 128 << 10, "K8": 256 << 10}
 
 
